@@ -790,6 +790,17 @@ fn run_local(ctx: &Ctx) -> Outcome {
         if let Some(h) = &hb {
             let _ = std::fs::write(h, format!("fuzz {}\n", i));
         }
+        // self-test of the supervisor only (never set by the registered commands)
+        if let Ok(mode) = std::env::var("RV_C07_SELFTEST") {
+            if i == 1003 && mode == "abort" {
+                std::process::abort();
+            }
+            if i == 1003 && mode == "hang" {
+                loop {
+                    std::thread::sleep(Duration::from_secs(1));
+                }
+            }
+        }
         let mut rng = ctx.rng("fuzz", i);
         let s = gen_seq(&mut rng);
         run_seq_case(ctx, &s, want, st, &wd)
@@ -883,7 +894,9 @@ fn supervise(ctx: &Ctx) -> Outcome {
     let wd = work_dir();
     let nshards = ctx.threads.max(1) as u64;
     let mut workers: Vec<Worker> = (0..nshards).map(|s| spawn_worker(ctx, s, nshards, s, &wd)).collect();
-    let stale_limit = Duration::from_secs(60);
+    let secs = |name: &str, default: u64| std::env::var(name).ok().and_then(|v| v.parse().ok()).unwrap_or(default);
+    let stale_limit = Duration::from_secs(secs("RV_C07_STALE_SECS", 60));
+    let rerun_limit = Duration::from_secs(secs("RV_C07_RERUN_SECS", 600));
     let mut finished = 0;
     let mut merged_stats = Stats::default();
     let mut restarts = 0u64;
@@ -927,8 +940,8 @@ fn supervise(ctx: &Ctx) -> Outcome {
                 let _ = workers[wi].child.kill();
                 let _ = workers[wi].child.wait();
                 if let Some((sub, idx)) = parse_hb(&hb) {
-                    let a = rerun_alone(ctx, &sub, idx, &wd, Duration::from_secs(600));
-                    let b = if a { true } else { rerun_alone(ctx, &sub, idx, &wd, Duration::from_secs(600)) };
+                    let a = rerun_alone(ctx, &sub, idx, &wd, rerun_limit);
+                    let b = if a { true } else { rerun_alone(ctx, &sub, idx, &wd, rerun_limit) };
                     if !a && !b {
                         out.violation_count += 1;
                         out.violations.push(Violation { sub: sub.clone(), index: idx, what: "the case did not finish within 60 s in the worker nor within 10 minutes in two isolated re-runs".to_string(), desc: J::Null });
